@@ -71,7 +71,7 @@ EXPLANATION = ('every bedGraph / interval set up to the bound is expanded by the
                'and every reached array is converted back and re-expanded')
 MANIFEST_TEXT = ('Exhaustive enumeration against dense NumPy arrays. quick: every bedGraph on genomes of 1..2 contigs of size 1..3 '
                  '(all value assignments from {1,2} as int; float, True and explicit-zero value patterns), 1..2 contigs with a size-4 contig, '
-                 '3 and 4 contigs of size 1..2 (value patterns); every multiset of <= 2 intervals (sorted and reversed) as mask and '
+                 '3 and 4 contigs of size 1..2 (value patterns); every multiset of <= 2 intervals (sorted and reversed; on 2 contigs of size <= 2 also <= 3 intervals in every order, with and without zero-length intervals) as mask and '
                  'pileup; each with to_dict / get_data / array[contig].to_bedgraph / sum / histogram / str and a menu of derived '
                  'expressions; every ordered pair of tracks x {+,-,*,<,>,==} and of masks x {&,|} on genomes (3), (2,2), (1,2,1); BFS '
                  'closure of depth 2 over {+,-,*,<,>,==,&,|,~, scalars 0,1,2} from 6 root sets. thorough: all value assignments from '
